@@ -752,7 +752,10 @@ class StmtMixin:
         g_in = guard(it)
         it.pc.append(g_in)
         v0 = None
-        if spec.decreases is not None:
+        forever = spec.decreases == "forever"     # a service loop (`while True` ended only by cancellation): no variant
+        if forever:
+            v0 = None
+        elif spec.decreases is not None:
             v0 = self.bind(it, V(INT, self.as_int(self.ev_spec_val(spec.decreases, it), it, s)), "variant").z
         elif variant_fn is not None:
             v0 = self.bind(it, V(INT, variant_fn(it)), "variant").z
@@ -779,11 +782,12 @@ class StmtMixin:
                     if use_frame:
                         for key, goal in self.frame_goals(cur_c, e, self.entry_state):
                             self.oblige(e, goal, f"{unit_clause}.frame", f"preserved, frame of {key}", s)
-                    if spec.decreases is not None:
-                        v1 = self.as_int(self.ev_spec_val(spec.decreases, e), e, s)
-                    else:
-                        v1 = variant_fn(e)
-                    self.oblige(e, z3.And(v0 >= 0, v1 < v0), f"{unit_clause}.decreases", "decreases", s)
+                    if not forever:
+                        if spec.decreases is not None:
+                            v1 = self.as_int(self.ev_spec_val(spec.decreases, e), e, s)
+                        else:
+                            v1 = variant_fn(e)
+                        self.oblige(e, z3.And(v0 >= 0, v1 < v0), f"{unit_clause}.decreases", "decreases", s)
                 elif oc.kind == "break":
                     oc.st.locals.pop("$iter%d" % ordinal, None) if ordinal is not None else None
                     outs.append(Outcome("next", oc.st))
